@@ -5,26 +5,35 @@ import vlib
 
 MANIFEST = dict(
     module="RoundTrip", ref="§5 C03",
-    text="RoundTrip.tla models Build(feature...);(Save;Open)* over a feature alphabet of ~235 tokens (one per public "
-         "setter / constructor variant / argument class / exported formatting field) and ~45 constructors, and states C03 as "
-         "witness sets over four projections of one abstract type (document as built, first saved part, reopened body, "
-         "re-saved part; further cycles). TLC checks the reference machine (identity reader: silent; lossy reader: exactly the "
-         "lost groups) exhaustively, generates every single feature on every applicable constructor and every pair of features "
-         "on one element in varying contexts (thorough: sampled triples), the harness replays them on the library and projects "
-         "memory (reflection over the exported data model) and saved bytes (independent XML reader) generically, and "
-         "RoundTrip_Trace.tla judges. A generator that exercises every setter, compared through an independent parser, is what "
-         "the property's quantifier needs; exhaustive small scope over the feature product is the right level for a reader that "
-         "has one hand-written case per element.",
-    technique="TLA+ spec RoundTrip; TLC exhaustive MC (intended + lossy reader) + TLC-generated documents replayed on the library + TLC trace judge",
+    text="RoundTrip.tla models Build(feature...);(Save;Open)* over a feature alphabet of ~240 tokens (one per public "
+         "setter / constructor variant / argument class / exported formatting field) and ~50 constructors - among them "
+         "constructors whose target lies below a nested table node (DeepCtors: every table feature, pictures included, is "
+         "applied to a table nested one or two levels deep) - and states C03 as witness sets over four projections of one "
+         "abstract type (document as built, first saved part, reopened body, re-saved part; further cycles). A relationship id "
+         "is projected together with what it resolves to in the SAME source (picture bytes, header / footer part), in memory "
+         "through the document's own relationship list and part store, on disk through the independent package reader, so a "
+         "picture or header whose target is lost or swapped is a changed value on either side. Groups of which a section holds "
+         "several instances (header / footer references, one per kind = slot) are modelled per slot. TLC checks the reference "
+         "machine exhaustively (identity reader: silent; lossy reader: exactly the lost groups, a lost nested node reported once; "
+         "aliasing reader - every instance a copy of the last one read: exactly the multi groups with two instances or more), "
+         "generates every single feature on every applicable constructor, every pair of features on one element in varying "
+         "contexts, every set of three (thorough: three to seven) header / footer kinds on one section (thorough also: sampled "
+         "triples), the harness replays them on the library and projects memory (reflection over the exported data model) and "
+         "saved bytes (independent XML reader) generically, and RoundTrip_Trace.tla judges. A generator that exercises every "
+         "setter, compared through an independent parser, is what the property's quantifier needs; exhaustive small scope over "
+         "the feature product is the right level for a reader that has one hand-written case per element.",
+    technique="TLA+ spec RoundTrip; TLC exhaustive MC (intended + lossy + aliasing reader) + TLC-generated documents replayed on the library + TLC trace judge",
 )
 
 LEVEL = "model_checking"
-RULE = ("documents = a focus element (every constructor; every single applicable feature token; every pair of feature tokens "
-        "of the tier's pair alphabet on the canonical constructor of each class) embedded in a context of 0-2 other elements and "
-        "section settings, enumerated by TLC in BFS order, plus seeded random feature triples in the thorough tier; each is built "
-        "through the public API, saved and opened three times (bytes API and file API alternate); after every step the in-memory "
-        "body or the saved main part is projected to the abstract document and RoundTrip_Trace.tla judges "
-        "mem1=mem0, disk1~mem0, disk2=disk1 and the fixed point of further cycles")
+RULE = ("documents = a focus element (every constructor, including tables nested 1-2 levels below a body table as the target "
+        "of every table feature; every single applicable feature token; every pair of feature tokens of the tier's pair alphabet "
+        "on the canonical constructor of each class and on a nested table) embedded in a context of 0-2 other elements and section settings, plus "
+        "sections carrying every set of 3 (thorough 3-7) of the header / footer kinds and the first-page switch, enumerated by "
+        "TLC in BFS order, plus seeded random feature triples in the thorough tier; each is built through the public API, saved "
+        "and opened three times (bytes API and file API alternate); after every step the in-memory body or the saved main part "
+        "is projected to the abstract document - relationship ids together with the bytes / part they resolve to in that source "
+        "- and RoundTrip_Trace.tla judges mem1=mem0, disk1~mem0, disk2=disk1 and the fixed point of further cycles")
 
 # one or two representatives per formatting group: the pair alphabet of the quick tier
 REPS = {
@@ -36,13 +45,23 @@ REPS = {
     "t.nested.d1", "t.nested.d2", "t.merge.h", "t.merge.v", "t.merge.range", "t.rowheight.exact", "t.rowheader",
     "t.cantsplit", "t.align.right", "t.style.grid", "t.borders.partial", "t.shading", "t.cellborders.diag",
     "t.cellshading", "t.textdir", "t.appendrow", "t.insertcol0", "t.struct.tcmar",
+    "s.header.first", "s.footer.even",
     "i.size.wh", "i.align.center", "i.alt", "i.fl.tight", "i.fl.topbottom", "i.fr.square", "i.off.xy", "i.setalign.right",
     "s.size.custom", "s.size.custom.wide", "s.orient.landscape", "s.margins", "s.grid.chars", "s.header.default", "s.footer.first",
     "s.titlepg.on", "s.headerpn",
 }
+# targets below a nested table node (DeepCtors of the spec): every table feature alone on a nested table; the depth rotates
+# with the seed in the quick tier, the thorough tier takes all of them
+NESTED = ["c.ntbl.d1.2x2", "c.ntbl.d2.2x2"]
+# the section's header / footer references (multi groups of the spec: one instance per kind) and the first-page switch:
+# sets of 3 (quick) / 3..7 (thorough) of them on one section
+HF = {"s.header.default", "s.header.first", "s.header.even", "s.footer.default", "s.footer.first", "s.footer.even", "s.titlepg.on"}
+# pair alphabet on a nested table in the quick tier (content, pictures, further nesting, merges, rows / columns, formatting)
+NREPS = {"tc.data", "t.cellimage", "t.cellimage.same", "t.nested.d1", "t.merge.h", "t.merge.v", "t.cellpara", "t.celllist.bullet",
+         "t.rowheight.exact", "t.borders.partial", "t.appendrow", "t.insertcol0", "t.cellfmt.full"}
 CANON_Q = {"c.fpara", "c.tbl.2x2", "c.img.png", "sect"}
 CANON_T = {"c.fpara", "c.tbl.3x3", "c.img.png", "sect"}
-MC_DUMMY = {"Lost": set(), "LostKinds": set(), "MCCtors": set(), "MCFeats": set(), "MCSect": set()}
+MC_DUMMY = {"Lost": set(), "LostKinds": set(), "Alias": set(), "MCCtors": set(), "MCFeats": set(), "MCSect": set(), "MCSectMax": 0}
 
 
 def all_tokens(ctx):
@@ -116,10 +135,19 @@ def pipeline(ctx, replay_case=None):
     ctx.tlc_mc("RoundTrip_MC.tla", "RoundTrip_MC_quick_lossy.cfg" if q else "RoundTrip_MC_thorough_lossy.cfg")
     allc = set(ctors) | {"sect"}
     if q:
-        cfg = gencfg(ctx, "gen_bfs.cfg", SingleCtors=CANON_Q | {"c.para"}, PairCtors=CANON_Q, PairFeats=REPS)
+        cfg = gencfg(ctx, "gen_bfs.cfg", SingleCtors=CANON_Q | {"c.para", NESTED[ctx.seed % len(NESTED)]}, PairCtors=CANON_Q, PairFeats=REPS)
     else:
-        cfg = gencfg(ctx, "gen_bfs.cfg", SingleCtors=allc, PairCtors=CANON_T, PairFeats=set(feats), CtxMode="all")
+        cfg = gencfg(ctx, "gen_bfs.cfg", SingleCtors=allc, PairCtors=CANON_T | {NESTED[0]}, PairFeats=set(feats), CtxMode="all")
     cases = ctx.tlc_gen("RoundTrip_MC.tla", cfg, "bfs", timeout=900)
+    # sections with three or more header / footer references (BFS, exhaustive over the subsets of HF of the tier's sizes)
+    cfg = gencfg(ctx, "gen_hf.cfg", MinF=3, MaxF=3 if q else len(HF), PairCtors={"sect"}, PairFeats=HF, FocusKinds={"sect"},
+                 PreSaves={False} if q else {False, True})
+    cases += ctx.tlc_gen("RoundTrip_MC.tla", cfg, "hf", timeout=600)
+    if q:
+        # pairs of table features on a nested table (the thorough tier has every pair, see PairCtors above)
+        cfg = gencfg(ctx, "gen_nest.cfg", MinF=2, MaxF=2, PairCtors={NESTED[ctx.seed % len(NESTED)]}, PairFeats=NREPS, FocusKinds={"ctor"},
+                     PreSaves={False})
+        cases += ctx.tlc_gen("RoundTrip_MC.tla", cfg, "nest", timeout=600)
     allcases = list(cases)
     judge(ctx, cases, "bfs")
     ctx.exhaustive = True
@@ -131,9 +159,14 @@ def pipeline(ctx, replay_case=None):
         judge(ctx, sim, "sim")
     coverage(ctx, allcases, feats, ctors)
     ctx.extra_cov["bounds"] = dict(cycles=3, max_features_on_focus=2 if q else 3, context_elements="0-2 + section settings",
-                                   pair_alphabet=len(REPS) if q else len(feats))
+                                   pair_alphabet=len(REPS) if q else len(feats),
+                                   nested_targets=[NESTED[ctx.seed % len(NESTED)]] if q else sorted(c for c in ctors if c.startswith("c.ntbl")),
+                                   header_footer_kinds_on_one_section="3" if q else "3-7")
     info(ctx)
     ctx.assumptions.append("text domain = characters legal in XML 1.0; xml:space is not interpreted by the independent reader (DESIGN 6.2)")
+    ctx.assumptions.append("the in-memory side of a relationship id (picture bytes, header / footer part) is read from the document's private "
+                           "relationship list by read-only reflection and from GetParts(): the library has no accessor for it; the order of the "
+                           "header / footer references of a section is taken as written (k-th reference against k-th reference)")
     ctx.assumptions.append("a setter that leaves nothing in the in-memory document (no-op stub) is not a C03 matter; such tokens are listed under unobservable_or_build_mismatch when the specification expected an effect")
     return ctx.finish(LEVEL, RULE)
 
